@@ -244,7 +244,6 @@ Proof. vm_compute. reflexivity. Qed.
 Example C01_ex_rejects :
   wf_seq m_init [Mkdir [47;97] 493; Rename [47;97] [47;97;47;98]] = false /\
   wf_seq m_init [Create [47;102]; Stat [47;102;47;100]] = false /\                 (* the OS: ENOTDIR, MemMapFs: not-exist *)
-  wf_seq m_init [Create [47;102]; Rename [47;122] [47;102;47;120]] = false /\      (* missing source: finding F4 *)
   wf_seq m_init [MkdirAll [47;97;47;98] 493; Remove [47;97]] = false.
 Proof. vm_compute. auto. Qed.
 (* ... and accepts a creating call below a regular file: both sides refuse it with ENOTDIR *)
@@ -340,14 +339,31 @@ Example C01_ex_mixed :
     PHandle 2; PNames [[102];[104]] false ].
 Proof. vm_compute. auto. Qed.
 
-(* finding F4 (outside the class): Rename of a MISSING source whose directory exists onto a name below
-   a regular file — the specification (and Linux) resolve both directories first and answer ENOTDIR,
-   MemMapFs looks for the source first and answers not-exist; wf_op rejects the call *)
+(* Rename of a MISSING source whose directory exists onto a name below a regular file: rename(2)
+   resolves both directories before it looks for the source and answers ENOTDIR; so does MemMapFs
+   (switch memfs_rename_missing_source_enotdir = 1, read from the source of Rename; before that repair
+   — finding F4 — it answered not-exist).  The call is in the ordinary half of the class. *)
+Theorem C01_rename_missing_switch : memfs_rename_missing_source_enotdir = 1%Z.
+Proof. exact memfs_rename_missing_source_enotdir_fact. Qed.
+Print Assumptions C01_rename_missing_switch.
+
+Theorem C01_rename_missing_source : forall s p q, WF s -> wf_op_ord s (Rename p q) = true ->
+  lookup s (normalize_path p) = None ->
+  m_step s (Rename p q) =
+    (ticked s, RErr (EW (if is_dir_at s (par (normalize_path p)) && through_file s (normalize_path q) then KENOTDIR else KNotExist))).
+Proof.
+  intros s p q W Hwf Hl. cbn [wf_op_ord] in Hwf. apply andb_true_iff in Hwf as [Hn _]. apply andb_true_iff in Hn as [Hn _].
+  apply andb_true_iff in Hn as [Hnp Hnq]. unfold m_step. cbn [m_step_raw].
+  now rewrite (m_rename_missing s p q W (canon_normalize p Hnp) (canon_normalize q Hnq) Hl).
+Qed.
+Print Assumptions C01_rename_missing_source.
+
 Example C01_ex_F4 :
   let s := fst (m_step m_init (Create [47;102])) in let t := fst (p_step p_init (Create [47;102])) in
-  let o := Rename [47;122] [47;102;47;120] in
-  wf_op s o = false /\ mproj o (snd (m_step s o)) = PFail CNotExist /\ snd (p_step t o) = PFail CNotDir.
-Proof. vm_compute. auto. Qed.
+  let o := Rename [47;122] [47;102;47;120] in let o2 := Rename [47;122;47;121] [47;102;47;120] in
+  wf_op_ord s o = true /\ mproj o (snd (m_step s o)) = PFail CNotDir /\ snd (p_step t o) = PFail CNotDir /\
+  wf_op_ord s o2 = true /\ mproj o2 (snd (m_step s o2)) = PFail CNotExist /\ snd (p_step t o2) = PFail CNotExist.
+Proof. vm_compute. auto 10. Qed.
 
 Example C01_ex_spelling : same_names (Mkdir [47;47;120;47] 448%Z) (Mkdir [47;120] 448%Z) /\
   same_names (Rename [47;97;47;46;47;98] [47;120;47;46;46;47;121]) (Rename [47;97;47;98] [47;121]).
